@@ -308,19 +308,25 @@ class _Sched:
             tty.read_caps = list(sch.get("read_caps", []))
             out = W.SimTTYOut(w, tty)
             screen = prd.Screen(input=W.SimTTYIn(tty), output=out)
-            screen.set_input_timeouts(max_wait=None, complete_wait=self.cw)
+            # (the application may also have asked for polling reads - max_wait - which bounds one get_input() call and
+            # has nothing to do with how long the rest of a sequence is waited for)
+            mw = [None, 0, TICK][sum(sch.get("cuts", [])) % 3] if self.mode == "loop" else None  # (the synchronous driver sets its own below)
+            screen.set_input_timeouts(max_wait=mw, complete_wait=self.cw)
+            if mw is not None:
+                res.probe("max_wait_set_beside_complete_wait")
             # fragments
             stream = self.stream
             cuts = sorted({c for c in sch.get("cuts", []) if 0 < c < len(stream)})
             gaps = list(sch.get("gaps", []))
             bounds = [0, *cuts, len(stream)]
+            arrivals: list[float] = []  # virtual times at which a fragment reached the tty
             t = 0.25
             last_t = t
             for i in range(len(bounds) - 1):
                 if i > 0:
                     t += gaps[i - 1] if i - 1 < len(gaps) else 0.0
                 frag = stream[bounds[i] : bounds[i + 1]]
-                w.schedule(t, f"tty<{frag.hex()}", lambda frag=frag: tty.feed(frag))
+                w.schedule(t, f"tty<{frag.hex()}", lambda frag=frag: (arrivals.append(w.rel()), tty.feed(frag)))
                 last_t = t
             for wt in sch.get("winch", []):
                 w.schedule(0.25 + float(wt), "sigwinch", lambda: signal.getsignal(signal.SIGWINCH)(signal.SIGWINCH, None))
@@ -341,6 +347,10 @@ class _Sched:
                     # a timeout flush of the pending bytes
                     flush_bounds.append(delivered[0] + len(codes))
                     w.log.add("flush", [len(codes)])
+                    earlier = [a for a in arrivals if a < w.rel()]  # (a fragment arriving at this very instant may not have been read yet)
+                    if self.mode == "loop" and earlier and codes and w.rel() - earlier[-1] < self.cw - TICK / 2:
+                        # the pending bytes are given up although the last byte arrived less than complete_wait ago
+                        self.violate("C05.3", f"pending-sequence-flushed-before-complete_wait loop={self.kind}", f"stream {stream.hex()} cuts {cuts} gaps {gaps}: flush at {w.rel()}, last earlier arrival at {earlier[-1]}, complete_wait {self.cw}")
                     res.fault("timeout_flush_with_pending_bytes")
                 if callback is None:
                     keys, raw = orig_parse(event_loop, None, codes, wait_for_more)
@@ -531,7 +541,7 @@ class InputEngine(Engine):
         "real": ["_posix_raw_display.Screen (start/stop, hook_event_loop, parse_input, get_input, _read_raw_input)", "escape.process_keyqueue / KeyqueueTrie", "all six event loops"],
         "stub": ["tty (fake descriptor, termios list)", "resize socket pair", "selectors / zmq poller / asyncio blocking step / trio fd wait", "clock"],
     }
-    required_probes = ("token_table_checked", "timeout_and_arrival_same_instant", "cut_inside_token", "double_byte_with_ascii_range_trail_checked")
+    required_probes = ("token_table_checked", "timeout_and_arrival_same_instant", "cut_inside_token", "double_byte_with_ascii_range_trail_checked", "max_wait_set_beside_complete_wait")
     selftest_n = 1000
     reducible = ("schedules", "tokens")
 
